@@ -1,195 +1,736 @@
-"""C07 — ListBox.mouse_event: "A button-1 press on a visible selectable item makes that item the focus."
+"""C07 -- ListBox shows a gap-free window of its items that contains the focus.
 
-Built on contracts/C08_listbox.py (the list walker as an opaque protocol object; `ListBox.change_focus` under
-contract: whenever it returns, the walker's focus is the position asked).
+`ListBox.calculate_visible` (the three walker-driven loops), `get_focus_offset_inset`, `_set_focus_valign_complete` and
+`render` against a *chain model* of the opaque list walker ("for every walker honouring the ListWalker interface"):
 
-What is *visible* is what `ListBox.calculate_visible` reports for the size (the same value `render` draws from):
-the items above the focus (nearest first), the focus item, the items below, each with the rows it occupies, and
-the number of rows of the topmost one that are cut off.  Read top-down that is the list V(0..n-1) of
-(widget, position, rows); item k is drawn in the view rows [Y(k), Y(k+1)) with Y(0) = -trim_top,
-Y(k+1) = Y(k) + rows(V(k)).  The clause proved on the real body: for EVERY k, if the pressed row lies in
-[Y(k), Y(k+1)), the event is a button-1 press and V(k)'s widget is selectable, then on return the walker's focus
-is V(k)'s POSITION (not merely a position holding an equal widget: one widget object may sit at several
-positions).
+    chain(d, k)    d = 0: upwards, d = 1: downwards; chain(d, 0) is the walker's focus, chain(d, k+1) is what
+                   get_prev / get_next answers for the position of chain(d, k); OK(d, k): that item exists
+    R(d, k)        rows of the k items nearest to the focus in direction d (prefix sum over the chain, each item's
+                   rows((maxcol,)) as the widget reports them)
 
-`calculate_visible` itself (three walker-driven loops) is not verified here: it is used through an assumed,
-deterministic contract (`lb_visible_items`); the bounded stand-in bounded/C07.py judges it against the rows
-actually drawn.  A focus change still pending (set_focus called, nothing rendered since) is outside this
-contract: "visible" presupposes a rendering, and rendering completes the pending change."""
+Both are recursive definitions over the step count k (consistent for every walker: cyclic / wrap-around position
+graphs included), instantiated groundly at the step terms in play (`chain_unfold`).  The three `while` loops carry the
+ghost iteration counter of the engine (`Loop(counter=True)`): "the loop has walked k items" is the abstraction the
+invariants talk about, and the counters at loop exit are the witnesses `ka`, `kb` of the postcondition
+"there are ka, kb such that the rows shown are  chain(0,ka) .. focus .. chain(1,kb)  minus trim_top / trim_bottom".
+
+Not claimed here: termination of the loops (a walker may offer infinitely many 0-row widgets), and the completion of a
+pending focus change (step 0 of calculate_visible = `_set_focus_complete`, contracts/C08_listbox.py): `requires` says
+that no change is pending."""
 import z3
 
 from pyvc import seqs as Q
+from pyvc import shapes as S
 from pyvc import values as V
 from pyvc.api import *
-from pyvc.api import PROTOCOLS, REGISTRY
-from pyvc.values import cur, is_none, mk_bool
+from pyvc.api import PROTOCOLS
+from pyvc.values import cur, is_none, mk_bool, mk_int
 from contracts.proto_widget import *
-from contracts.C09_frame import mouse_press  # the (assumed, deterministic) predicate `is_mouse_press(event)`
-from contracts.C08_listbox import FILL, LBX, LISTBOX, WIDGET, focus_at, walker_focus
+from contracts.C08_listbox import FILL, LBX, WALKER, WIDGET, lb_ok, walker_focus
 
 from urwid.widget import listbox as _lbmod
 
-VISIBLE = Tup(Tup(Int, WIDGET, Int, Dim, Opt(Tup(Int, Int))), Tup(Int, FILL), Tup(Int, FILL))
+# ------------------------------------------------------------------------------------------------ state of a ListBox
+
+VALIGN = Enum("top", "middle", "bottom", "relative")
+VHEIGHT = Enum("relative", "given")
+
+LB = Obj(
+    _lbmod.ListBox,
+    dict(
+        _body=WALKER,
+        set_focus_pending=Const(None),
+        set_focus_valign_pending=Const(None),
+        offset_rows=Int,
+        inset_fraction=Tup(Int, Int),
+        pref_col=Opt(Int),
+        _rendered_size=Tup(Int, Int),
+    ),
+)
 
 
-@contract(LBX + "ListBox.calculate_visible", property=(), assumed=True, alias="C07-visible-items", deterministic=True,
-          notes="with no focus change pending: a pure function of (walker state, widget states, offset_rows / inset_fraction, size, "
-                "focus) - reads get_focus / get_prev / get_next and the widgets' rows(), writes nothing; result ((offset, focus "
-                "widget, focus position, focus rows, cursor), (trim_top, [(widget, position, rows)] above, nearest first), "
-                "(trim_bottom, [... below])) with rows >= 0 and 0 <= trim_top; the middle entry is the walker's focus; of the list "
-                "box's own fields it reads offset_rows and inset_fraction only (get_focus_offset_inset) besides the two pending-"
-                "change fields, which are None here. Its three "
-                "walker-driven loops are outside what was brought under contract; bounded/C07.py judges what it reports against "
-                "the rows drawn")
-class lb_visible_items:
-    self_shape = LISTBOX
-    params = dict(size=Tup(Int, Int), focus=Bool)
-    result = VISIBLE
-    modifies = ()
+def no_change_pending(s):
+    """`set_focus_pending` and `set_focus_valign_pending` are both None (a formula; never forks)."""
+    out = []
+    for p in (s.set_focus_pending, s.set_focus_valign_pending):
+        out.append(True if p is None else (mk_bool(p.isnone) if isinstance(p, V.SOpt) else False))
+    return both(*out)
+
+
+def focus_widget(s, when="now"):
+    return val(walker_focus(s, when)[0])
+
+
+def rows_of(w, maxcol, focus=False):
+    return PROTOCOLS["Widget"].call_quiet(cur(), w, "rows", dict(size=(maxcol,), focus=focus))
+
+
+def nonempty(s):
+    return neg(mk_bool(walker_focus(s)[0].isnone))
+
+
+def size_ok(size):
+    return both(0 <= size[0], size[0] < DIMMAX, 1 <= size[1], size[1] < DIMMAX)
+
+
+# ------------------------------------------------------------------------------------------------ get_focus_offset_inset
+
+
+@contract(LBX + "ListBox.get_focus_offset_inset", property="C07", replayable=False)
+class lb_get_focus_offset_inset:
+    """(offset rows, inset rows) of the focus widget: one of them is 0; the inset is the stored fraction of the
+    widget's rows, rounded down, and leaves a row of the widget (0 <= inset < rows, or both 0)."""
+
+    self_shape = LB
+    params = dict(size=Tup(Int, Int))
+    result = Tup(Int, Int)
     raises = (_lbmod.ListBoxError,)
-    # get_focus_offset_inset refuses an inset_fraction that is not a proper fraction (consulted only at offset 0)
-    raises_iff = {_lbmod.ListBoxError: lambda s, a: both(s.offset_rows == 0, either(s.inset_fraction[0] < 0, s.inset_fraction[1] < 0, s.inset_fraction[0] >= s.inset_fraction[1]))}
-    deterministic_reads = ("_body", "offset_rows", "inset_fraction")
+    modifies = ()
 
     def requires(s, a):
-        return both(is_none(s.set_focus_pending), neg(mk_bool(walker_focus(s)[0].isnone)))
+        return both(nonempty(s), a.size[0] >= 0)
+
+    # raises exactly for a corrupt scroll state (never under the class invariant `lb_ok`)
+    raises_iff = {_lbmod.ListBoxError: lambda s, a: both(s.offset_rows == 0, neg(both(0 <= s.inset_fraction[0], 0 <= s.inset_fraction[1], s.inset_fraction[0] < s.inset_fraction[1])))}
 
     def ensures(old, s, a, result):
-        yield "middle-is-the-walkers-focus", result[0][2] == walker_focus(old)[1]
-        yield "trim-top-not-negative", result[1][0] >= 0
+        off, inset = result
+        rows = rows_of(focus_widget(old, "entry"), a.size[0], True)
+        inum, iden = old.inset_fraction
+        yield "offset-is-the-stored-one", off == old.offset_rows
+        yield "one-of-them-is-zero", either(off == 0, inset == 0)
+        yield "inset-leaves-a-row-of-the-widget", both(0 <= inset, either(inset < rows, both(rows == 0, inset == 0)))
+        yield "inset-is-the-fraction-of-the-rows-rounded-down", implies(off == 0, both(inset * iden <= rows * inum, rows * inum < (inset + 1) * iden))
+        yield "fraction-was-valid", implies(off == 0, both(0 <= inum, inum < iden))
+
+    def on_raise(old, s, a, exc):
+        inum, iden = old.inset_fraction
+        yield "only-for-a-corrupt-fraction", both(old.offset_rows == 0, either(inum < 0, iden < 0, inum >= iden))
 
 
-def _moves_focus(name):
-    @contract(LBX + f"ListBox.{name}", property=(), assumed=True, alias="C07-wheel",
-              notes="scrolls one step (the 'up' / 'down' key procedure, also bound to the mouse wheel): may move the focus and the "
-                    "offsets; returns None when it moved, True when it could not; ~60 lines of scrolling logic exercised by bounded/C07.py")
-    class k:
-        self_shape = LISTBOX
-        params = dict(size=Tup(Int, Int))
-        result = Opt(Bool)
-        raises = (_lbmod.ListBoxError, ValueError, IndexError, KeyError)
-        modifies = ("offset_rows", "inset_fraction", "pref_col")
+# ------------------------------------------------------------------------------------------------ the chain model
 
-        def effects(old, s, a, result):
-            PROTOCOLS["ListWalker"].bump(cur(), s._body)
+# arguments: (walker, walker state version, maxcol, direction, step)
+_KEY = (S.opaque_sort("ListWalker"), z3.IntSort(), z3.IntSort(), z3.IntSort(), z3.IntSort())
+_OK = z3.Function("lbchain$OK", *_KEY, z3.BoolSort())
+_POS = z3.Function("lbchain$POS", *_KEY, z3.IntSort())
+_W = z3.Function("lbchain$W", *_KEY, S.opaque_sort("Widget"))
+_R = z3.Function("lbchain$R", *_KEY, z3.IntSort())
 
-    return k
+UP, DOWN = 0, 1
 
 
-lb_wheel_up = _moves_focus("_keypress_up")
-lb_wheel_down = _moves_focus("_keypress_down")
+class Chain:
+    """The items around the walker's focus at one walker state and one width (see the module docstring)."""
 
-
-class Visible:
-    """The visible items of list box `lb` at `size` read top-down, from the value calculate_visible reports in the
-    state `lb` (a snapshot)."""
-
-    def __init__(self, lb, size):
-        middle, top, bottom = lb_visible_items.spec_value(lb, size=size, focus=True)
-        self.middle = middle
-        self.trim_top = top[0]
-        above = top[1].seq if isinstance(top[1], Q.LRef) else top[1]
-        below = bottom[1].seq if isinstance(bottom[1], Q.LRef) else bottom[1]
-        self.n_above = Q.seq_len(above)
-        self.n = self.n_above + 1 + Q.seq_len(below)
-        fa, fb = Q.seq_cpsum(above, 2), Q.seq_cpsum(below, 2)
-        m = self.n_above
-        self.above, self.below = above, below
-
-        def Y(j):  # top edge of item j (j = n: the row below the last item)
-            up = fa(m) - fa(imax(m - imin(j, m), 0))  # rows of the first min(j, m) items: the LAST ones of `above`
-            return -self.trim_top + up + ite(j > m, middle[3] + fb(imax(j - m - 1, 0)), 0)
-
-        self.Y = Y
-
-    def item(self, j):
-        """(widget, position, rows) of V(j), for 0 <= j < n."""
-        m = self.n_above
-        a = Q.seq_get(self.above, imax(m - 1 - j, 0))
-        b = Q.seq_get(self.below, imax(j - m - 1, 0))
-        mid = (self.middle[1], self.middle[2], self.middle[3])
-        return tuple(ite(j < m, a[c], ite(j == m, mid[c], b[c])) for c in range(3))
-
-    def at_row(self, j, row, Yj=None, Yj1=None):
-        return both(0 <= j, j < self.n, (self.Y(j) if Yj is None else Yj) <= row, row < (self.Y(j + 1) if Yj1 is None else Yj1))
-
-
-def arb_item():
-    """An arbitrary index into the visible items: one unconstrained integer per path, shared by the loop invariant
-    and the postcondition; nothing is assumed about it except instances of the proved lemma `prefix-sum-monotone`
-    (contracts/C19_containers.py), so a clause shown for it holds for every index."""
-    st = cur()
-    if "arb_item" not in st.ghost:
-        st.ghost["arb_item"] = st.fresh_int("item")
-    return st.ghost["arb_item"]
-
-
-def rows_monotone(n, a, Ya, b, Yb):
-    """Instance of lemma `prefix-sum-monotone` for the top edges Ya = Y(a), Yb = Y(b): every visible item has
-    rows >= 0 (shape `Dim` of the rows component), so 0 <= a <= b <= n  =>  Y(a) <= Y(b)."""
-    cur().assume(implies(both(0 <= a, a <= b, b <= n), Ya <= Yb))
-
-
-def _hit_loop(v):
-    """`wrow` is the top edge of the item looked at; every item passed ends at or above the pressed row."""
-    L = v.w_list
-    i = v.i_
-    n = Q.seq_len(L)
-    f = Q.seq_cpsum(L, 2)
-    k = arb_item()
-    Yi, Yi1 = -v.trim_top + f(i), -v.trim_top + f(i + 1)
-    g = cur().ghost  # (the terms that do not depend on the iteration are built once per path: w_list is not changed by the loop)
-    if "C07_hit_loop_Y" not in g:
-        g["C07_hit_loop_Y"] = tuple(-v.trim_top + f(j) for j in (k, k + 1, n))
-    Yk, Yk1, Yn = g["C07_hit_loop_Y"]
-    rows_monotone(n, i + 1, Yi1, k, Yk)
-    rows_monotone(n, k + 1, Yk1, i, Yi)
-    rows_monotone(n, i + 1, Yi1, n, Yn)
-    yield "top-edge-is-the-sum-of-the-rows-above", v.wrow == Yi
-    yield "items-passed-end-at-or-above-the-row", either(i == 0, v.wrow <= v.row)
-
-
-def calls(name=None):
-    return [ev for ev in cur().trace if ev[0] == "call" and ev[1].kind == "Widget" and (name is None or ev[2] == name)]
-
-
-@contract(LBX + "ListBox.mouse_event", property="C07", replayable=False,
-          contract_overrides={LBX + "ListBox.calculate_visible": lb_visible_items, LBX + "ListBox._keypress_up": lb_wheel_up, LBX + "ListBox._keypress_down": lb_wheel_down})
-class lb_mouse_event:
-    qf_branching = True
-    self_shape = LISTBOX
-    params = dict(size=Tup(Int, Int), event=Opaque("Key"), button=Int, col=Int, row=Int, focus=Bool)
-    result = Opt(Bool)
-    raises = (_lbmod.ListBoxError, ValueError, IndexError, KeyError)
-    modifies = ("offset_rows", "inset_fraction", "pref_col")
-    loops = {0: Loop(invariant=_hit_loop)}
-
-    def requires(s, a):
-        # a list that is not empty, drawn since the last focus assignment (see the module docstring), at a real size
-        return both(a.size[0] >= 0, a.size[1] >= 0, 0 <= a.row, is_none(s.set_focus_pending), neg(mk_bool(walker_focus(s)[0].isnone)))
-
-    def ensures(old, s, a, result):
-        W = PROTOCOLS["Widget"]
+    def __init__(self, lb, maxcol, when="now"):
         st = cur()
-        vis = Visible(old, a.size)
-        k = arb_item()  # arbitrary: the clauses below hold for every visible item
-        w, pos, _rows = vis.item(k)
-        Yk, Yk1, Yn = vis.Y(k), vis.Y(k + 1), vis.Y(vis.n)
-        at_row = vis.at_row(k, a.row, Yk, Yk1)
-        press = mouse_press(a.event)
-        sel = W.call_quiet(st, w, "selectable", {})
-        was = walker_focus(old, "entry")[1]
-        now = walker_focus(s, "exit")
-        yield "button-1-press-on-a-visible-selectable-item-makes-that-position-the-focus", implies(
-            both(at_row, press, a.button == 1, sel), both(neg(mk_bool(now[0].isnone)), now[1] == pos))
-        yield "no-other-event-on-an-item-moves-the-focus", implies(
-            both(at_row, neg(both(press, either(both(a.button == 1, sel), a.button == 4, a.button == 5)))), now[1] == was)
-        me = calls("mouse_event")
-        yield "at-most-one-item-receives-the-event", len(me) <= 1
-        if me:
-            ev = me[0]
-            x = ev[3]
-            yield "delivered-to-the-item-at-that-row-with-item-relative-row", implies(
-                at_row, both(eq(ev[1], w), x["col"] == a.col, x["row"] == a.row - Yk, x["button"] == a.button, eq(x["event"], a.event)))
-        yield "row-below-the-last-visible-item-changes-nothing", implies(
-            a.row >= Yn, both(len(me) == 0, eq(result, False), now[1] == was))
+        P = PROTOCOLS["ListWalker"]
+        self.walker = lb._body
+        self.maxcol = maxcol
+        if when == "entry":
+            self.ver = 0
+        elif when == "exit":
+            self.ver = st.ghost.get("ver_post", st.ghost.get("ver", {})).get(str(self.walker.e), 0)
+        else:
+            self.ver = P.version(st, self.walker)
+        self.key = (self.walker.e, z3.IntVal(self.ver), V._z(maxcol))
+        g = P.uf_value(st, "get_focus", self.walker, [], P.methods["get_focus"].result, self.ver)
+        self.focus_widget, self.focus_pos = val(g[0]), g[1]
+        # the axioms already instantiated on this path (z3 terms are hash-consed: get_id() identifies the index term)
+        self.done = st.ghost.setdefault("lbchain_done", set())
+        base = ("base", self.key[0].get_id(), self.ver, self.key[2].get_id())
+        if base not in self.done:
+            self.done.add(base)
+            for d in (UP, DOWN):
+                st.assume(z3.And(_OK(*self.key, z3.IntVal(d), z3.IntVal(0)), _POS(*self.key, z3.IntVal(d), z3.IntVal(0)) == V._z(self.focus_pos),
+                                 _W(*self.key, z3.IntVal(d), z3.IntVal(0)) == self.focus_widget.e, _R(*self.key, z3.IntVal(d), z3.IntVal(0)) == 0))
+
+    def _a(self, d, k):
+        return (*self.key, z3.IntVal(d), V._z(k))
+
+    def ok(self, d, k):
+        return mk_bool(_OK(*self._a(d, k)))
+
+    def pos(self, d, k):
+        return mk_int(_POS(*self._a(d, k)))
+
+    def widget(self, d, k):
+        return V.SOpaque("Widget", _W(*self._a(d, k)), {})
+
+    def R(self, d, k):
+        return mk_int(_R(*self._a(d, k)))
+
+    def item_rows(self, d, k, focus_rows):
+        """Rows of chain(d, k); k = 0 is the focus widget (rendered with focus: `focus_rows`)."""
+        return ite(k <= 0, focus_rows, self.R(d, k) - self.R(d, k - 1))
+
+    def mono(self, d, a, b):
+        """Lemma `chain-rows-monotone` (below), instantiated: R(d, a) <= R(d, b) for 0 <= a <= b with OK(d, b)."""
+        cur().assume(implies(both(0 <= a, a <= b, self.ok(d, b)), both(self.R(d, a) <= self.R(d, b), self.ok(d, a))))
+
+    def neighbour(self, d, position):
+        P = PROTOCOLS["ListWalker"]
+        name = "get_prev" if d == UP else "get_next"
+        m = P.methods[name]
+        r = P.uf_value(cur(), name, self.walker, [V._z(position)], m.result, self.ver)
+        for f in m.ensures(cur(), self.walker, {"position": position}, r):  # the protocol's own clauses for this answer
+            cur().assume(f)
+        return r
+
+    def unfold(self, d, k):
+        """Definitional axioms at step k (for k >= 0): chain(d, k+1) from chain(d, k)."""
+        st = cur()
+        inst = (self.key[0].get_id(), self.ver, self.key[2].get_id(), d, V._z(k).get_id())
+        if inst in self.done:
+            return
+        self.done.add(inst)
+        g = self.neighbour(d, self.pos(d, k))
+        there = both(self.ok(d, k), neg(mk_bool(g[0].isnone)))
+        w = val(g[0])
+        rows = rows_of(w, self.maxcol, False)
+        st.assume(implies(k >= 0, both(
+            eq(self.ok(d, k + 1), there),
+            implies(there, both(self.pos(d, k + 1) == g[1], mk_bool(_W(*self._a(d, k + 1)) == w.e), self.R(d, k + 1) == self.R(d, k) + rows, rows >= 0)),
+            # lemma `chain-rows-non-negative` (below), instantiated: a prefix sum of rows >= 0 over items that exist
+            implies(self.ok(d, k), self.R(d, k) >= 0),
+        )))
+
+
+def cps_rows(fill):
+    """Sum of the `rows` components of a fill list [(widget, position, rows)]."""
+    f = Q.seq_cpsum(fill, 2)
+    if f is None:
+        raise Unsupported("fill list without the prefix sums of its rows")
+    return f(Q.seq_len(fill))
+
+
+def cursor_row_visible(cursor, off, maxrow):
+    """The cursor the focus widget reports (None, or (x, y) relative to the widget) lies on a row of the box."""
+    if cursor is None:
+        return True
+    if isinstance(cursor, V.SOpt):
+        return either(mk_bool(cursor.isnone), both(0 <= off + cursor.val[1], off + cursor.val[1] < maxrow))
+    return both(0 <= off + cursor[1], off + cursor[1] < maxrow)
+
+
+def item_ok(fill, j, maxcol):
+    """Entry j of a fill list carries the rows its widget reports at this width (unfocused)."""
+    w, _p, r = Q.seq_get(fill, j)
+    return r == rows_of(w, maxcol, False)
+
+
+def every_item_ok(fill, maxcol, name):
+    """`for every index j of the fill list: item_ok` as a statement about ONE arbitrary index (universal
+    generalisation, pyvc.values.arbitrary): proved / assumed for that index only, hence for all."""
+    n = Q.seq_len(fill)
+    if isinstance(n, int):
+        return both(True, *[item_ok(fill, j, maxcol) for j in range(n)])
+    q = V.arbitrary(name)
+    return implies(both(0 <= q, q < n), item_ok(fill, q, maxcol))
+
+
+def last_listed(ch, fill, fpos, kb, kl):
+    """chain(DOWN, kl) is the bottommost item that is listed (the focus when nothing is): whatever the walker has
+    between it and chain(DOWN, kb) has no rows."""
+    n = Q.seq_len(fill)
+    if isinstance(n, int):
+        bottom_pos = Q.seq_get(fill, n - 1)[1] if n > 0 else fpos
+    else:
+        bottom_pos = ite(n > 0, Q.seq_get(fill, n - 1)[1], fpos)
+    return both(0 <= kl, kl <= kb, ch.R(DOWN, kl) == ch.R(DOWN, kb), bottom_pos == ch.pos(DOWN, kl), implies(n == 0, kl == 0))
+
+
+def _kl_at_head(v):
+    """Ghost of loop 3: the chain index of the last item appended to fill_below.  At the loop head of the arbitrary
+    iteration it is an unknown of the invariant (a fresh constant when the invariant is assumed); when the invariant
+    is re-established after the body it is the index just appended, or the old one when a 0-row widget was skipped."""
+    st = cur()
+    if isinstance(v.i_, int):
+        return 0  # inv-init: nothing walked yet
+    if st.ghost.get("inv_assuming"):
+        st.ghost["lb_kl"] = st.fresh_int("kl")
+        return st.ghost["lb_kl"]
+    # inv-preserve: v.i_ = j + 1 items walked, the last one (n_rows) appended unless it had no rows
+    return ite(v.n_rows != 0, v.i_, st.ghost["lb_kl"])
+
+
+def _kl_final():
+    end = loop_end(1)
+    st = cur()
+    if isinstance(end.i_, int) or "lb_kl" not in st.ghost:
+        return 0
+    if end.broke_ and not is_none(end.next_pos):
+        return end.i_ + 1  # left on the item that crosses the bottom edge: it has rows and was appended
+    return st.ghost["lb_kl"]
+
+
+def loop_end(ordinal):
+    return cur().ghost["loop_end"][ordinal]
+
+
+def steps_done(end, none_name):
+    """Number of chain items a loop has walked when it was left: its completed iterations, plus the one in progress
+    when it was left by `break` after a neighbour was found."""
+    if not end.broke_:
+        return end.i_
+    return end.i_ if is_none(getattr(end, none_name)) else end.i_ + 1
+
+
+def _k2():
+    return steps_done(loop_end(0), "prev")
+
+
+def _kb():
+    return steps_done(loop_end(1), "next_pos")
+
+
+def _cv_loop_above(v):
+    """Loop 2 (the widgets above the focus), k items walked."""
+    ch = Chain(v.self, v.maxcol)
+    k = v.i_
+    ch.unfold(UP, k)
+    e = v.at_entry
+    yield "at-the-kth-item-above", both(ch.ok(UP, k), v.pos == ch.pos(UP, k), v.top_pos == v.pos)
+    ch.unfold(UP, k - 1)
+    yield "rows-collected-are-the-chains", both(cps_rows(v.fill_above) == ch.R(UP, k), ch.R(UP, k) >= 0)
+    yield "lines-left", both(v.fill_lines == e.offset_rows - ch.R(UP, k), v.fill_lines >= 0)
+    yield "walked-on-only-while-lines-were-left", implies(k >= 1, ch.R(UP, k - 1) < e.offset_rows)
+    yield "offset-and-trim-untouched", both(v.offset_rows == e.offset_rows, v.trim_top == e.trim_top)
+    yield "every-listed-item-has-its-widgets-rows", every_item_ok(v.fill_above, v.maxcol, "cv.above")
+
+
+def _cv_loop_below(v):
+    """Loop 3 (the widgets below the focus), j items walked."""
+    ch = Chain(v.self, v.maxcol)
+    j = v.i_
+    ch.unfold(DOWN, j)
+    off = v.offset_rows - v.inset_rows
+    yield "at-the-jth-item-below", both(ch.ok(DOWN, j), v.pos == ch.pos(DOWN, j))
+    yield "rows-collected-are-the-chains", both(cps_rows(v.fill_below) == ch.R(DOWN, j), ch.R(DOWN, j) >= 0)
+    ch.unfold(DOWN, j - 1)
+    yield "lines-left", both(v.fill_lines == v.maxrow - v.focus_rows - off - ch.R(DOWN, j), implies(j >= 1, v.fill_lines >= 0))
+    yield "walked-on-only-while-lines-were-left", implies(j >= 1, v.maxrow - v.focus_rows - off - ch.R(DOWN, j - 1) > 0)
+    yield "trim-untouched", v.trim_bottom == imax(v.focus_rows + off - v.maxrow, 0)
+    yield "every-listed-item-has-its-widgets-rows", every_item_ok(v.fill_below, v.maxcol, "cv.below")
+    kl = _kl_at_head(v)
+    ch.unfold(DOWN, kl)
+    yield "last-listed-item-below", last_listed(ch, v.fill_below, v.focus_pos, j, kl)
+
+
+def _cv_loop_refill(v):
+    """Loop 4 (more widgets above, when the walker ran out below), m more items walked after loop 2's k2."""
+    ch = Chain(v.self, v.maxcol)
+    k2, kb = _k2(), _kb()
+    k = k2 + v.i_
+    ch.unfold(UP, k)
+    ch.unfold(UP, k - 1)
+    off = v.offset_rows - v.inset_rows
+    shown = off + v.focus_rows + ch.R(DOWN, kb) - v.trim_bottom
+    yield "at-the-kth-item-above", both(ch.ok(UP, k), v.pos == ch.pos(UP, k))
+    yield "rows-collected-are-the-chains", cps_rows(v.fill_above) == ch.R(UP, k)
+    yield "focus-sits-below-the-rows-above", off == ch.R(UP, k) - v.trim_top
+    yield "lines-left-are-the-blank-rows", both(v.fill_lines == v.maxrow - shown, v.fill_lines >= 0, v.fill_lines <= v.at_entry.fill_lines)
+    yield "no-refill-while-a-row-is-cut-off", implies(v.fill_lines > 0, both(v.trim_top == 0, v.trim_bottom == 0))
+    yield "trim-top-inside-the-topmost-item", both(v.trim_top >= 0, implies(v.trim_top > 0, v.trim_top < ch.item_rows(UP, k, v.focus_rows)))
+    yield "a-focus-row-stays-visible", implies(v.focus_rows >= 1, both(off < v.maxrow, off + v.focus_rows >= 1))
+    yield "cursor-row-stays-visible", cursor_row_visible(v.cursor, off, v.maxrow)
+    yield "every-listed-item-has-its-widgets-rows", every_item_ok(v.fill_above, v.maxcol, "cv.above")
+
+
+CV_RESULT = Tup(Tup(Int, WIDGET, Int, Dim, Opt(Tup(Nat, Nat))), Tup(Int, FILL), Tup(Int, FILL))
+
+
+def cv_clauses(ch, s, a, result, ka, kb, kl, callee=False):
+    """The postcondition of calculate_visible for the witnesses ka, kb (items walked above / below) and kl (the
+    bottommost listed item)."""
+    maxcol, maxrow = a.size
+    (off, fw, fpos, frows, cursor), (tt, above), (tb, below) = result
+    above, below = [x.seq if isinstance(x, Q.LRef) else x for x in (above, below)]  # the lists' contents now (values)
+    A, B = cps_rows(above), cps_rows(below)
+    ch.unfold(UP, ka)
+    ch.unfold(UP, ka - 1)
+    ch.unfold(DOWN, kb)
+    ch.unfold(DOWN, kb - 1)
+    yield "middle-is-the-walkers-focus", both(fpos == ch.focus_pos, eq(fw, ch.focus_widget), frows == rows_of(ch.focus_widget, maxcol, True))
+    yield "window-is-a-stretch-of-the-chain", both(ka >= 0, kb >= 0, ch.ok(UP, ka), ch.ok(DOWN, kb))
+    yield "rows-listed-are-the-chains-no-gap", both(A == ch.R(UP, ka), B == ch.R(DOWN, kb))
+    yield "focus-sits-below-the-rows-above", off == A - tt
+    yield "trim-top-inside-the-topmost-item", both(tt >= 0, implies(tt > 0, tt < ch.item_rows(UP, ka, frows)))
+    yield "trim-bottom-inside-the-bottommost-item", both(tb >= 0, implies(tb > 0, tb < ch.item_rows(DOWN, kb, frows)))
+    shown = A - tt + frows + B - tb
+    yield "never-more-than-the-box", shown <= maxrow
+    yield "blank-rows-only-below-the-last-item", implies(shown < maxrow, both(tb == 0, neg(ch.ok(DOWN, kb + 1))))
+    yield "blank-rows-only-with-everything-above-shown", implies(shown < maxrow, both(tt == 0, neg(ch.ok(UP, ka + 1))))
+    yield "a-focus-row-is-visible", implies(frows >= 1, both(off < maxrow, off + frows >= 1))
+    yield "focus-not-below-the-box", off <= maxrow
+    yield "cursor-row-is-visible", cursor_row_visible(cursor, off, maxrow)
+    W = PROTOCOLS["Widget"]
+    wants = both(a.focus, W.call_quiet(cur(), fw, "selectable", {}), W.hasattr(None, cur(), fw, "get_cursor_coords"))
+    reported = W.call_quiet(cur(), fw, "get_cursor_coords", dict(size=(maxcol,)))
+    yield "cursor-is-what-the-focused-selectable-focus-widget-reports", either(both(wants, V.opt_eq(cursor, reported)), both(neg(wants), V.opt_isnone(cursor)))
+    ch.unfold(DOWN, kl)
+    yield "last-listed-item-below", last_listed(ch, below, fpos, kb, kl)
+    if callee:
+        # per-item clauses: kept as lazy facts, instantiated by the caller at the indices it looks at
+        V.lazy_forall(0, Q.seq_len(above), lambda j: item_ok(above, j, maxcol))
+        V.lazy_forall(0, Q.seq_len(below), lambda j: item_ok(below, j, maxcol))
+    else:
+        yield "every-item-above-has-its-widgets-rows", every_item_ok(above, maxcol, "cv.above")
+        yield "every-item-below-has-its-widgets-rows", every_item_ok(below, maxcol, "cv.below")
+
+
+@contract(LBX + "ListBox.calculate_visible", property="C07", replayable=False)  # C08 uses it as a callee contract only
+class lb_calculate_visible:
+    """The widgets drawn around the walker's focus at this size: (row offset, focus widget, focus position, focus rows,
+    cursor), (trim_top, [(widget, position, rows)] above, nearest first), (trim_bottom, [... below])."""
+
+    self_shape = LB
+    params = dict(size=Tup(Int, Int), focus=Bool)
+    result = CV_RESULT
+    raises = ()
+    modifies = ()
+
+    def requires(s, a):
+        # no focus change pending (step 0), a list that is not empty, a sane scroll state
+        return both(no_change_pending(s), nonempty(s), size_ok(a.size), lb_ok(s))
+
+    loops = {
+        0: Loop(invariant=_cv_loop_above, counter=True, shapes={"fill_above": FILL}),
+        1: Loop(invariant=_cv_loop_below, counter=True, shapes={"fill_below": FILL}),
+        2: Loop(invariant=_cv_loop_refill, counter=True, shapes={"fill_above": FILL}),
+    }
+
+    def ensures(old, s, a, result):
+        ch = Chain(old, a.size[0], "entry")
+        ka = _k2() + steps_done(loop_end(2), "prev")
+        import os
+        if os.environ.get("LBDBG"):
+            e0, e1, e2 = loop_end(0), loop_end(1), loop_end(2)
+            print("PATH", cur().path_key(), "L2", e0.broke_, e0.broke_ and is_none(e0.prev), "L3", e1.broke_, e1.broke_ and is_none(e1.next_pos), "L4", e2.broke_, e2.broke_ and is_none(e2.prev))
+        yield from cv_clauses(ch, s, a, result, ka, _kb(), _kl_final())
+        yield "moves-no-focus", walker_focus(s, "exit")[1] == walker_focus(old, "entry")[1]
+
+    def ensures_callee(old, s, a, result):
+        st = cur()
+        ch = Chain(old, a.size[0])
+        ka, kb, kl = st.fresh_int("ka"), st.fresh_int("kb"), st.fresh_int("kl")
+        st.ghost["cv_witness"] = (ch, ka, kb, kl, result)
+        st.ghost["cv_lists"] = (Q.to_sseq(result[1][1]), Q.to_sseq(result[2][1]))  # the lists as returned (render reverses one in place)
+        yield from cv_clauses(ch, s, a, result, ka, kb, kl, callee=True)
+
+
+# ------------------------------------------------------------------------------------------------ _set_focus_valign_complete
+
+LBV = Obj(
+    _lbmod.ListBox,
+    dict(
+        _body=WALKER,
+        set_focus_pending=Opt(Int),  # whatever was pending (the value is only overwritten here)
+        set_focus_valign_pending=Tup(VALIGN, Int),
+        offset_rows=Int,
+        inset_fraction=Tup(Int, Int),
+        pref_col=Opt(Int),
+    ),
+)
+
+_CTBF = "urwid/widget/filler.py:calculate_top_bottom_filler"
+
+
+@contract(LBX + "ListBox._set_focus_valign_complete", property="C07", replayable=False, inline=(_CTBF,), contract_overrides={_CTBF: None})
+class lb_set_focus_valign_complete:
+    """Completing `set_focus_valign((vt, va))` now that the size is known: both pending requests are cleared, and the
+    focus widget is put `spare` rows below the top for 'bottom', half of that (rounded down) for 'middle', 0 for 'top',
+    va per cent of it (rounded half up from below) for 'relative' -- spare = maxrow - rows, 0 when the widget is taller
+    than the box -- and never on or below the last row: a focus row (if it has one) is inside the box, and shift_focus
+    does not raise (before /repo b1ed84b a 0-row focus widget aligned 'bottom' asked for offset maxrow: ListBoxError).
+    calculate_top_bottom_filler is inlined (its C19 contract bounds the alignment only to within a row)."""
+
+    self_shape = LBV
+    params = dict(size=Tup(Int, Int), focus=Bool)
+    raises = ()
+    modifies = ("set_focus_pending", "set_focus_valign_pending", "offset_rows", "inset_fraction")
+
+    def requires(s, a):
+        vt, va = s.set_focus_valign_pending
+        return both(size_ok(a.size), implies(vt == "relative", both(0 <= va, va <= 100)))
+
+    def ensures(old, s, a, result):
+        maxcol, maxrow = a.size
+        vt, va = old.set_focus_valign_pending
+        g = walker_focus(old, "entry")
+        empty = mk_bool(g[0].isnone)
+        yield "both-pending-requests-cleared", both(s.set_focus_pending is None, s.set_focus_valign_pending is None)
+        yield "empty-list-nothing-else", implies(empty, both(s.offset_rows == old.offset_rows, s.inset_fraction[0] == old.inset_fraction[0], s.inset_fraction[1] == old.inset_fraction[1]))
+        rows = rows_of(val(g[0]), maxcol, a.focus)
+        spare = imax(maxrow - rows, 0)
+        off = s.offset_rows
+        cap = lambda x: imin(x, maxrow - 1)  # noqa: E731
+        yield "no-inset", implies(neg(empty), both(s.inset_fraction[0] == 0, s.inset_fraction[1] == 1))
+        yield "top", implies(both(neg(empty), vt == "top"), off == 0)
+        yield "bottom", implies(both(neg(empty), vt == "bottom"), off == cap(spare))
+        yield "middle", implies(both(neg(empty), vt == "middle"), off == cap(spare // 2))
+        # relative: va per cent of the spare rows go above, to within the rounding of int_scale: |100*top - va*spare| <= 100
+        yield "relative", implies(both(neg(empty), vt == "relative"), either(off == maxrow - 1, both(100 * off - va * spare <= 100, va * spare - 100 * off <= 100)))
+        yield "relative-ends", implies(both(neg(empty), vt == "relative"), both(implies(va == 0, off == 0), implies(va == 100, off == cap(spare))))
+        yield "a-focus-row-inside-the-box", implies(neg(empty), both(0 <= off, off < maxrow))
+        yield "widget-not-cut-while-it-fits", implies(both(neg(empty), rows <= maxrow, rows >= 1), off + rows <= maxrow)
+        yield "scroll-state-sane", implies(neg(empty), lb_ok(s))
+        yield "moves-no-focus", walker_focus(s, "exit")[1] == g[1]
+
+
+# ------------------------------------------------------------------------------------------------ render
+
+
+def _cv():
+    """(chain, ka, kb, kl, above, below, ...) of the calculate_visible call made by render on this path."""
+    ch, ka, kb, kl, result = cur().ghost["cv_witness"]
+    return ch, ka, kb, kl, result
+
+
+def _cv_lists():
+    return cur().ghost["cv_lists"]
+
+
+def _widths_ok(comb, n, maxcol):
+    """Every canvas collected so far is maxcol wide: stated for one arbitrary index (the one CanvasCombine's
+    equal-widths obligation is stated for) and for index 0."""
+    if isinstance(comb, (tuple, list)):
+        return both(True, *[c[0].ncols == maxcol for c in comb])
+    k = V.arbitrary("CanvasCombine.k")
+    return both(implies(both(0 <= k, k < n), Q.seq_get(comb, k)[0].ncols == maxcol), implies(n > 0, Q.seq_get(comb, 0)[0].ncols == maxcol))
+
+
+def _render_loop_above(v):
+    above, below = _cv_lists()
+    n = Q.seq_len(above)
+    i = v.i_
+    V.instantiate(n - 1 - i)
+    cps = Q.seq_cpsum(above, 2)
+    comb = v.combinelist.seq
+    yield "one-canvas-per-item-so-far", Q.seq_len(comb) == i
+    yield "rows-so-far", both(v.rows == cps(n) - cps(n - i), Q.to_sseq(comb).psum(i) == v.rows)
+    yield "all-canvases-maxcol-wide", _widths_ok(comb, i, v.maxcol)
+
+
+def _render_loop_below(v):
+    above, below = _cv_lists()
+    na = Q.seq_len(above)
+    i = v.i_
+    V.instantiate(i)
+    comb = v.combinelist.seq
+    m = na + 1 + i
+    yield "one-canvas-per-item-so-far", Q.seq_len(comb) == m
+    yield "rows-so-far", both(v.rows == Q.seq_cpsum(above, 2)(na) + v.focus_rows + Q.seq_cpsum(below, 2)(i), Q.to_sseq(comb).psum(m) == v.rows)
+    yield "all-canvases-maxcol-wide", _widths_ok(comb, m, v.maxcol)
+
+
+def _render_loop_tail(v):
+    """The consistency check below the last rendered item: it walks chain(DOWN, kl+1 ..), items without rows."""
+    ch, ka, kb, kl, _r = _cv()
+    q = kl + 1 + v.i_
+    ch.unfold(DOWN, q - 1)
+    ch.unfold(DOWN, q)
+    ch.mono(DOWN, q, kb)
+    ch.mono(DOWN, kl, q - 1)
+    g = ch.neighbour(DOWN, ch.pos(DOWN, q - 1))
+    yield "within-the-rowless-tail", both(kl + 1 <= q, q <= kb + 1, ch.ok(DOWN, q - 1))
+    yield "looking-at-the-next-chain-item", both(V.opt_eq(v.widget, g[0]), v.next_pos == g[1])
+
+
+@contract(LBX + "ListBox.render", property="C07", replayable=False, abstract_contains=True)
+class lb_render:
+    """The canvas has exactly the size asked, and nothing on the way raises: every listed widget renders the rows
+    calculate_visible listed for it, the two trims are inside the combined canvas, the rows never exceed the box, and
+    when rows are left blank the walker has nothing with rows below the last rendered item (so none of render's own
+    ListBoxError consistency checks fires).  Not expressed: the cursor of the canvas (CanvasCombine leaves it
+    unspecified for a list of symbolic length)."""
+
+    self_shape = LB
+    params = dict(size=Tup(Int, Int), focus=Bool)
+    result = CCANVAS
+    # "rendering a ListBox never raises".
+    # FAILS-ON-TREE: raises/ListBoxError@urwid/widget/listbox.py:708 for focus=False and a focus widget whose rows depend
+    # on `focus`: calculate_visible lists the focus widget with rows((maxcol,), True), render draws it with focus=focus and
+    # compares.  Replayed: a flow widget with rows = 2 if focus else 1,
+    #   ListBox(SimpleListWalker([W(), Text("b")])).render((5, 3), focus=False)
+    #   -> ListBoxError: Focus Widget <W selectable flow widget> at position 0 within listbox calculated 2 rows but rendered 1!
+    raises = ()
+    modifies = ("_rendered_size",)
+
+    def requires(s, a):
+        return both(no_change_pending(s), nonempty(s), size_ok(a.size), lb_ok(s))
+
+    def call_real(ip, st, f, args, kwargs):
+        if f is frozenset and len(args) == 1 and isinstance(args[0], (Q.SSeq, Q.LRef)):
+            # frozenset(<positions of the rendered items>): only asked `x in ...` here, which the contract leaves
+            # unspecified (abstract_contains: both answers are explored)
+            return args[0]
+        return NotImplemented
+
+    loops = {
+        0: Loop(invariant=_render_loop_above, shapes={"combinelist": COMBINE_LIST}),
+        1: Loop(invariant=_render_loop_below, shapes={"combinelist": COMBINE_LIST}),
+        2: Loop(invariant=_render_loop_tail, counter=True),
+    }
+
+    def ensures(old, s, a, result):
+        yield "canvas-is-the-box", both(result.ncols == a.size[0], result.nrows == a.size[1])
+        yield "size-remembered", both(s._rendered_size[0] == a.size[0], s._rendered_size[1] == a.size[1])
+        yield "moves-no-focus", walker_focus(s, "exit")[1] == walker_focus(old, "entry")[1]
+        # the widgets' render calls logged on this path (those of the two loops belong to the arbitrary iteration, whose
+        # own obligation is the rows check in the loop body): the focus widget is drawn once, with the focus flag asked
+        from pyvc.protocol import calls_on
+
+        drawn = calls_on(cur(), None, "render")
+        fw = focus_widget(old, "entry")
+        yield "focus-widget-drawn-once-with-the-focus-asked", both(len(drawn) == 1, *[both(eq(ev[1], fw), eq(ev[3]["focus"], a.focus), V.struct_eq(ev[3]["size"], (a.size[0],))) for ev in drawn])
+
+
+# ------------------------------------------------------------------------------------------------ the empty list
+
+def is_empty(s):
+    return mk_bool(walker_focus(s)[0].isnone)
+
+
+@contract(LBX + "ListBox.calculate_visible", property="C07", replayable=False, alias="empty")
+class lb_calculate_visible_empty:
+    """A walker without a focus (the empty list): (None, None, None), nothing looked at."""
+
+    self_shape = LB
+    params = dict(size=Tup(Int, Int), focus=Bool)
+    result = Tup(Const(None), Const(None), Const(None))
+    raises = ()
+    modifies = ()
+
+    def requires(s, a):
+        return both(no_change_pending(s), is_empty(s))
+
+    def ensures(old, s, a, result):
+        yield "three-nones", both(len(result) == 3, result[0] is None, result[1] is None, result[2] is None)
+
+
+_CV = LBX + "ListBox.calculate_visible"
+
+
+@contract(LBX + "ListBox.render", property="C07", replayable=False, alias="empty", contract_overrides={_CV: lb_calculate_visible_empty})
+class lb_render_empty:
+    """The empty list renders as a blank canvas of the size asked (for any size, 0 rows included)."""
+
+    self_shape = LB
+    params = dict(size=Tup(Int, Int), focus=Bool)
+    raises = ()
+    modifies = ("_rendered_size",)
+
+    def requires(s, a):
+        return both(no_change_pending(s), is_empty(s), a.size[0] >= 0, a.size[1] >= 0)
+
+    def ensures(old, s, a, result):
+        yield "blank-canvas-of-the-size-asked", both(result.ncols == a.size[0], result.nrows == a.size[1], mk_bool(result.cursor.isnone))
+        yield "size-remembered", both(s._rendered_size[0] == a.size[0], s._rendered_size[1] == a.size[1])
+
+
+# ------------------------------------------------------------------------------------------------ engine model check
+
+
+def _namedtuple_model_check():
+    """pyvc.builtins_model.namedtuple_new against CPython, on the NamedTuple classes of listbox.py and a class with
+    defaults: same tuple / same TypeError for positional, keyword, mixed, missing, surplus, repeated, unknown arguments."""
+    import itertools
+    import typing
+
+    from pyvc.builtins_model import is_namedtuple_class, namedtuple_new
+    from pyvc.engine import PyRaise
+
+    class WithDefaults(typing.NamedTuple):
+        a: int
+        b: int = 7
+        c: typing.Any = None
+
+    classes = [_lbmod.VisibleInfoMiddle, _lbmod.VisibleInfoFillItem, _lbmod.VisibleInfoTopBottom, _lbmod.VisibleInfo, WithDefaults]
+    n = bad = 0
+    detail = ""
+    for cls in classes:
+        if not is_namedtuple_class(cls):
+            return ("namedtuple-model-agrees-with-cpython", False, f"{cls.__name__} not recognised")
+        fields = cls._fields
+        names = list(fields) + ["zz"]
+        for npos in range(len(fields) + 2):
+            for kws in itertools.chain.from_iterable(itertools.combinations(names, r) for r in range(min(len(names), 3) + 1)):
+                args = list(range(10, 10 + npos))
+                kwargs = {k: 100 + i for i, k in enumerate(kws)}
+                try:
+                    want = ("ok", tuple(cls(*args, **kwargs)))
+                except TypeError:
+                    want = ("TypeError",)
+                try:
+                    r = namedtuple_new(cls, args, kwargs)
+                    got = ("ok", tuple(r))
+                    if any(getattr(cls(*args, **kwargs), f) != r[i] for i, f in enumerate(fields)):
+                        got = ("field-order",)
+                except PyRaise as e:
+                    got = (e.exc.cls.__name__,)
+                n += 1
+                if got != want:
+                    bad += 1
+                    detail = detail or f"{cls.__name__}(*{args}, **{kwargs}): CPython {want}, model {got}"
+    return ("namedtuple-model-agrees-with-cpython", bad == 0, detail or f"{n} constructor calls compared")
+
+
+def _writes_within(target, allowed, callees=()):
+    """Static frame check (the engine does not generate one): the attributes of `self` assigned in the body of
+    `target` are within `allowed` (= the contract's `modifies`), and the methods of `self` it calls are `callees`
+    (whose own `modifies` are within `allowed`, or which are not reached under `requires`: stated per use)."""
+    import ast
+
+    from pyvc import source as SRC
+
+    def chk():
+        node = SRC.resolve(target).node
+        me = node.args.args[0].arg
+        stores = {n.attr for n in ast.walk(node) if isinstance(n, ast.Attribute) and isinstance(n.value, ast.Name) and n.value.id == me and isinstance(n.ctx, (ast.Store, ast.Del))}
+        called = {n.func.attr for n in ast.walk(node) if isinstance(n, ast.Call) and isinstance(n.func, ast.Attribute) and isinstance(n.func.value, ast.Name) and n.func.value.id == me}
+        ok = stores <= set(allowed) and called <= set(callees)
+        return ("writes-within-modifies", ok, f"assigned: {sorted(stores)}; self-methods called: {sorted(called)}")
+
+    return chk
+
+
+# calculate_visible: `_set_focus_complete` (step 0) is not reached under `requires` (no change pending: the call sits
+# under `if self.set_focus_pending or self.set_focus_valign_pending`); get_focus_offset_inset modifies nothing
+lb_calculate_visible.static_checks = [_namedtuple_model_check, _writes_within(LBX + "ListBox.calculate_visible", (), ("_set_focus_complete", "get_focus_offset_inset"))]
+lb_get_focus_offset_inset.static_checks = [_writes_within(LBX + "ListBox.get_focus_offset_inset", ())]
+lb_set_focus_valign_complete.static_checks = [_writes_within(LBX + "ListBox._set_focus_valign_complete", lb_set_focus_valign_complete.modifies, ("shift_focus",))]
+lb_render.static_checks = [_writes_within(LBX + "ListBox.render", lb_render.modifies, ("calculate_visible",))]
+
+
+@lemma("chain-rows-non-negative", property="C07")
+class chain_rows_nonneg:
+    """R(d, k) >= 0 for every k >= 0 with OK(d, k) -- induction on k: R(d, 0) = 0; OK(d, k+1) implies OK(d, k) and
+    R(d, k+1) = R(d, k) + rows with rows >= 0 (widget protocol).  Used, instantiated, by `Chain.unfold`."""
+
+    params = dict(rk=Int, rows=Int, ok_k=Bool, ok_k1=Bool)
+
+    def requires(x):
+        # the defining equations at step k, and the induction hypothesis at k
+        return both(implies(x.ok_k1, x.ok_k), x.rows >= 0, implies(x.ok_k, x.rk >= 0))
+
+    def claim(x):
+        yield "base", 0 >= 0
+        yield "step", implies(x.ok_k1, x.rk + x.rows >= 0)
+
+
+@lemma("chain-rows-monotone", property="C07")
+class chain_rows_monotone:
+    """For 0 <= a <= b with OK(d, b): OK(d, a) and R(d, a) <= R(d, b) -- induction on b from a: base b = a; step:
+    OK(d, b+1) implies OK(d, b) and R(d, b+1) = R(d, b) + rows, rows >= 0.  Used, instantiated, by `Chain.mono`."""
+
+    params = dict(ra=Int, rb=Int, rows=Int, ok_a=Bool, ok_b=Bool, ok_b1=Bool)
+
+    def requires(x):
+        # defining equations at step b, induction hypothesis at b
+        return both(implies(x.ok_b1, x.ok_b), x.rows >= 0, implies(x.ok_b, both(x.ok_a, x.ra <= x.rb)))
+
+    def claim(x):
+        yield "base", implies(x.ok_a, both(x.ok_a, x.ra <= x.ra))
+        yield "step", implies(x.ok_b1, both(x.ok_a, x.ra <= x.rb + x.rows))
